@@ -4,6 +4,7 @@ import (
 	"fmt"
 	"reflect"
 	"sort"
+	"strconv"
 
 	"github.com/trajectoryjp/spatial_id_go/v4/common/object"
 	"github.com/trajectoryjp/spatial_id_go/v4/detector"
@@ -184,8 +185,7 @@ func errStr(err error) string {
 }
 
 // c16Run executes the operation on the given arrangement (perm/dup may be nil = as generated).
-func c16Run(c *CaseC16, perm, perm2, dup []int) c16Result {
-	var r c16Result
+func c16Run(c *CaseC16, perm, perm2, dup []int) (r c16Result) {
 	check := func(before, after any, what string) {
 		if b, ok := before.([]string); ok {
 			if a := after.([]string); len(a) == len(b) && (len(a) == 0 || reflect.DeepEqual(a, b)) {
@@ -194,6 +194,27 @@ func c16Run(c *CaseC16, perm, perm2, dup []int) c16Result {
 		}
 		if !reflect.DeepEqual(before, after) {
 			r.input = what + " was modified by the call"
+		}
+	}
+	// every ID slice handed to the library is a window of a longer slice whose tail holds sentinels: a callee that
+	// appends to its argument would overwrite the caller's data behind the window
+	const sentinel = "caller-data-behind-the-window"
+	window := func(in []string) []string {
+		full := make([]string, len(in), len(in)+6)
+		copy(full, in)
+		tail := full[len(in):cap(full)]
+		for i := range tail {
+			tail[i] = sentinel
+		}
+		return full
+	}
+	tailIntact := func(in []string, what string) {
+		tail := in[len(in):cap(in)]
+		for _, s := range tail {
+			if s != sentinel {
+				r.input = what + ": the caller's data behind the argument window (spare capacity) was overwritten with " + strconv.Quote(s)
+				return
+			}
 		}
 	}
 	var rawRes []string
@@ -226,10 +247,11 @@ func c16Run(c *CaseC16, perm, perm2, dup []int) c16Result {
 		bs := arrange(c.C03.Boxes, perm, dup)
 		var in []string
 		if c.C03.Spatial {
-			in = spatialIDs(bs)
+			in = window(spatialIDs(bs))
 		} else {
-			in = boxesExt(bs)
+			in = window(boxesExt(bs))
 		}
+		defer tailIntact(in, "zoom change")
 		cp := append([]string(nil), in...)
 		if c.C03.Spatial {
 			strs(integrate.ChangeSpatialIdsZoom(in, c.C03.H))
@@ -242,10 +264,11 @@ func c16Run(c *CaseC16, perm, perm2, dup []int) c16Result {
 		bs := arrange(c.C04.Boxes, perm, dup)
 		var in []string
 		if c.C04.Spatial {
-			in = spatialIDs(bs)
+			in = window(spatialIDs(bs))
 		} else {
-			in = boxesExt(bs)
+			in = window(boxesExt(bs))
 		}
+		defer tailIntact(in, "merge")
 		cp := append([]string(nil), in...)
 		if c.C04.Spatial {
 			strs(integrate.MergeSpatialIds(in, c.C04.H))
@@ -258,10 +281,12 @@ func c16Run(c *CaseC16, perm, perm2, dup []int) c16Result {
 		a, b := arrange(c.C05.A, perm, dup), arrange(c.C05.B, perm2, nil)
 		var ia, ib []string
 		if c.C05.Spatial {
-			ia, ib = spatialIDs(a), spatialIDs(b)
+			ia, ib = window(spatialIDs(a)), window(spatialIDs(b))
 		} else {
-			ia, ib = boxesExt(a), boxesExt(b)
+			ia, ib = window(boxesExt(a)), window(boxesExt(b))
 		}
+		defer tailIntact(ia, "overlap check, first list")
+		defer tailIntact(ib, "overlap check, second list")
 		ca, cb := append([]string(nil), ia...), append([]string(nil), ib...)
 		var ov bool
 		var err error
@@ -290,7 +315,8 @@ func c16Run(c *CaseC16, perm, perm2, dup []int) c16Result {
 		strs(transform.GetExtendedSpatialIdsWithinRadiusOfLine(s, e, c.C14.Radius.V(), c.C14.H, c.C14.V, len(c.Dup)%2 == 0))
 		check([]object.Point{s0, e0}, []object.Point{*s, *e}, "an end point")
 	case "neighbours":
-		in := boxesExt(arrange(c.C08.Boxes, perm, dup))
+		in := window(boxesExt(arrange(c.C08.Boxes, perm, dup)))
+		defer tailIntact(in, "N-layer neighbourhood")
 		cp := append([]string(nil), in...)
 		strs(operated.GetNspatialIdsAroundVoxcels(in, c.C08.HL, c.C08.VL))
 		check(cp, in, "input ID slice")
@@ -301,7 +327,8 @@ func c16Run(c *CaseC16, perm, perm2, dup []int) c16Result {
 		sort.Strings(extra)
 		r.set = append(r.set, "|"+fmt.Sprint(extra))
 	case "quadkeys", "altkeys", "bitkeys":
-		in := boxesExt(arrange(c.C11.Boxes, perm, dup))
+		in := window(boxesExt(arrange(c.C11.Boxes, perm, dup)))
+		defer tailIntact(in, "quadkey conversion")
 		cp := append([]string(nil), in...)
 		var raw []string
 		var err error
